@@ -850,3 +850,880 @@ theorem inv_init (c m : Bool) : Inv { connected := c, mmsg := m } := by
   refine ⟨?_, ?_, ?_, ?_, ?_, ?_, ?_⟩ <;> simp [H.owed, H.wire, H.cbs, wireOf]
 
 end UvModel.Udp
+
+/-! ## recv_payload_exact -/
+namespace UvModel.Udp
+
+def dgsOf (q : List RItem) : List RDg := q.filterMap fun | .dg d => some d | _ => none
+/-- recv_cb calls that carry a datagram (addr != NULL) -/
+def deliveries (evs : List REv) : List CbArgs :=
+  evs.filterMap fun | .cb a => if a.peer ≠ 0 then some a else none | _ => none
+
+/-- the callback arguments report datagram d as the kernel did -/
+def Rel (a : CbArgs) (d : RDg) : Prop :=
+  a.peer = d.peer ∧ (a.flags / FLAG_PARTIAL % 2 = 1 ↔ d.trunc = true) ∧ ∃ b, a.buf = some b ∧ a.nread = min d.len b.len
+
+def allRel : List CbArgs → List RDg → Prop
+  | [], [] => True
+  | a :: as, d :: ds => Rel a d ∧ allRel as ds
+  | _, _ => False
+
+theorem allRel_append {a1 a2 : List CbArgs} {d1 d2 : List RDg} (h1 : allRel a1 d1) (h2 : allRel a2 d2) :
+    allRel (a1 ++ a2) (d1 ++ d2) := by
+  induction a1 generalizing d1 with
+  | nil => cases d1 with
+    | nil => simpa using h2
+    | cons _ _ => simp [allRel] at h1
+  | cons a as ih => cases d1 with
+    | nil => simp [allRel] at h1
+    | cons d ds => exact ⟨h1.1, ih h1.2⟩
+
+theorem allRel_zip {as : List CbArgs} {ds : List RDg} (h : allRel as ds) :
+    as.length = ds.length ∧ ∀ p ∈ as.zip ds, Rel p.1 p.2 := by
+  induction as generalizing ds with
+  | nil => cases ds with
+    | nil => simp
+    | cons _ _ => simp [allRel] at h
+  | cons a as ih => cases ds with
+    | nil => simp [allRel] at h
+    | cons d ds =>
+      obtain ⟨h1, h2⟩ := ih h.2
+      refine ⟨by simp [h1], ?_⟩
+      intro p hp
+      simp only [List.zip_cons_cons, List.mem_cons] at hp
+      rcases hp with rfl | hp
+      · exact h.1
+      · exact h2 p hp
+
+@[simp] theorem dgsOf_append (a b : List RItem) : dgsOf (a ++ b) = dgsOf a ++ dgsOf b := by simp [dgsOf]
+@[simp] theorem deliveries_append (a b : List REv) : deliveries (a ++ b) = deliveries a ++ deliveries b := by
+  simp [deliveries]
+
+/-- what recvmsg consumed: skipped markers and at most one datagram -/
+theorem kRecvmsg_consumed (q : List RItem) :
+    ∃ pre, q = pre ++ (kRecvmsg q).2 ∧
+      ((∃ d, (kRecvmsg q).1 = .ok [d] ∧ dgsOf pre = [d]) ∨ ((kRecvmsg q).1.isErr = true ∧ dgsOf pre = [])) := by
+  induction q with
+  | nil => exact ⟨[], rfl, Or.inr ⟨rfl, rfl⟩⟩
+  | cons it t ih =>
+    obtain ⟨pre, hq, hr⟩ := ih
+    cases it with
+    | brk =>
+      refine ⟨.brk :: pre, by simp [kRecvmsg, ← hq], ?_⟩
+      simpa [kRecvmsg, dgsOf] using hr
+    | err e =>
+      simp only [kRecvmsg]
+      split
+      · refine ⟨.err e :: pre, by simp [← hq], ?_⟩
+        simpa [dgsOf] using hr
+      · exact ⟨[.err e], rfl, Or.inr ⟨rfl, rfl⟩⟩
+    | dg d => exact ⟨[.dg d], rfl, Or.inl ⟨d, rfl, rfl⟩⟩
+
+theorem takeDgs_consumed (n : Nat) (q : List RItem) : q = (takeDgs n q).1.map .dg ++ (takeDgs n q).2 := by
+  induction n generalizing q with
+  | zero => simp [takeDgs]
+  | succ n ih =>
+    match q with
+    | [] => simp [takeDgs]
+    | .dg d :: t => simp only [takeDgs, List.map_cons, List.cons_append]; rw [← ih t]
+    | .err e :: t => simp [takeDgs]
+    | .brk :: t => simp [takeDgs]
+
+theorem dgsOf_map_dg (ds : List RDg) : dgsOf (ds.map .dg) = ds := by
+  induction ds with
+  | nil => rfl
+  | cons d ds ih => simp [dgsOf] at ih ⊢; exact ih
+
+theorem kRecvmmsg_consumed (vlen : Nat) (hv : 1 ≤ vlen) (q : List RItem) :
+    ∃ pre, q = pre ++ (kRecvmmsg vlen q).2 ∧
+      ((∃ ds, (kRecvmmsg vlen q).1 = .ok ds ∧ dgsOf pre = ds) ∨ ((kRecvmmsg vlen q).1.isErr = true ∧ dgsOf pre = [])) := by
+  have hv0 : vlen ≠ 0 := by omega
+  induction q with
+  | nil => exact ⟨[], by simp [kRecvmmsg, hv0], Or.inr ⟨by simp [kRecvmmsg, hv0, KRecv.isErr], rfl⟩⟩
+  | cons it t ih =>
+    obtain ⟨pre, hq, hr⟩ := ih
+    cases it with
+    | brk =>
+      refine ⟨.brk :: pre, by simp [kRecvmmsg, ← hq], ?_⟩
+      simpa [kRecvmmsg, dgsOf] using hr
+    | err e =>
+      simp only [kRecvmmsg, hv0, if_false]
+      split
+      · refine ⟨.err e :: pre, by simp [← hq], ?_⟩
+        simpa [dgsOf] using hr
+      · exact ⟨[.err e], rfl, Or.inr ⟨rfl, rfl⟩⟩
+    | dg d =>
+      simp only [kRecvmmsg]
+      refine ⟨(takeDgs vlen (.dg d :: t)).1.map .dg, takeDgs_consumed _ _, Or.inl ⟨_, rfl, dgsOf_map_dg _⟩⟩
+
+section
+variable {σ : Type} (u : RecvUser σ)
+
+/-- the user does not call uv_udp_recv_stop from inside a UV_UDP_MMSG_CHUNK callback (if it does, the rest of
+the batch already read from the kernel is dropped — accepted behaviour) -/
+def NoStopInChunk : Prop := ∀ s a, hasChunk a.flags = true → u.recvSet s = true → u.recvSet (u.cb s a) = true
+/-- alloc_cb does not stop the handle (libuv would call a NULL recv_cb) -/
+def AllocKeeps : Prop := ∀ s, u.recvSet (u.alloc s).1 = u.recvSet s
+
+theorem flag_chunk_partial (t : Bool) :
+    (FLAG_CHUNK + (if t = true then FLAG_PARTIAL else 0)) / FLAG_PARTIAL % 2 = 1 ↔ t = true := by cases t <;> decide
+theorem flag_partial (t : Bool) : (if t = true then FLAG_PARTIAL else 0) / FLAG_PARTIAL % 2 = 1 ↔ t = true := by
+  cases t <;> decide
+
+theorem rel_chunk (a k : Nat) (d : RDg) :
+    Rel ⟨min d.len DGRAM_MAX, some ⟨a, k * DGRAM_MAX, DGRAM_MAX⟩, d.peer,
+         FLAG_CHUNK + (if d.trunc then FLAG_PARTIAL else 0)⟩ d := by
+  refine ⟨rfl, ?_, _, rfl, ?_⟩
+  · exact flag_chunk_partial d.trunc
+  · show min (d.len : Int) (DGRAM_MAX : Int) = ((min d.len DGRAM_MAX : Nat) : Int); omega
+
+theorem chunkLoop_deliv (hC : NoStopInChunk u) (a : Nat) :
+    ∀ (ds : List RDg) (k : Nat) (s : σ) (evs : List REv), (∀ d ∈ ds, d.peer ≠ 0) → u.recvSet s = true →
+      ∃ new, (chunkLoop u a ds k s evs).2 = evs ++ new ∧ allRel (deliveries new) ds := by
+  intro ds
+  induction ds with
+  | nil => intro k s evs _ _; exact ⟨[], by simp [chunkLoop], trivial⟩
+  | cons d ds ih =>
+    intro k s evs hp hs
+    have hpd : d.peer ≠ 0 := hp d (List.mem_cons_self ..)
+    have hfl : hasChunk (FLAG_CHUNK + if d.trunc = true then FLAG_PARTIAL else 0) = true := by
+      cases d.trunc <;> decide
+    generalize hargs : (⟨min d.len DGRAM_MAX, some ⟨a, k * DGRAM_MAX, DGRAM_MAX⟩, d.peer,
+        FLAG_CHUNK + (if d.trunc then FLAG_PARTIAL else 0)⟩ : CbArgs) = args
+    have hstep : chunkLoop u a (d :: ds) k s evs = chunkLoop u a ds (k + 1) (u.cb s args) (evs ++ [.cb args]) := by
+      simp [chunkLoop, hs, ← hargs]
+    rw [hstep]
+    obtain ⟨new, h1, h2⟩ := ih (k + 1) (u.cb s args) (evs ++ [.cb args])
+      (fun x hx => hp x (List.mem_cons_of_mem _ hx)) (hC s args (by rw [← hargs]; exact hfl) hs)
+    refine ⟨.cb args :: new, by rw [h1]; simp, ?_⟩
+    have hpa : args.peer ≠ 0 := by rw [← hargs]; exact hpd
+    have : deliveries (.cb args :: new) = args :: deliveries new := by simp [deliveries, hpa]
+    rw [this]
+    exact ⟨by rw [← hargs]; exact rel_chunk a k d, h2⟩
+
+theorem recvmmsg_deliv (hC : NoStopInChunk u) (a len : Nat) (hlen : DGRAM_MAX ≤ len) (s : σ) (q : List RItem)
+    (hs : u.recvSet s = true) (hq : ∀ d ∈ dgsOf q, d.peer ≠ 0) :
+    ∃ pre, q = pre ++ (recvmmsg u a len s q).q ∧ allRel (deliveries (recvmmsg u a len s q).evs) (dgsOf pre) := by
+  obtain ⟨pre, hpre, hr⟩ := kRecvmmsg_consumed _ (chunks_pos hlen) q
+  unfold recvmmsg
+  generalize kRecvmmsg (min (len / DGRAM_MAX) 20) q = kr at hpre hr
+  have hsub : ∀ d ∈ dgsOf pre, d.peer ≠ 0 := by
+    intro d hd; apply hq; rw [hpre]; simp [hd]
+  match kr, hpre, hr with
+  | (.err e, q'), hpre, hr =>
+    rcases hr with ⟨ds, h, _⟩ | ⟨_, h⟩
+    · simp at h
+    · exact ⟨pre, hpre, by simp [recvmmsgK, deliveries, h, allRel]⟩
+  | (.ok [], q'), hpre, hr =>
+    rcases hr with ⟨ds, h, h2⟩ | ⟨h, _⟩
+    · simp only [KRecv.ok.injEq] at h
+      exact ⟨pre, hpre, by simp [recvmmsgK, deliveries, h2, ← h, allRel]⟩
+    · simp [KRecv.isErr] at h
+  | (.ok (d :: ds), q'), hpre, hr =>
+    rcases hr with ⟨ds', h, h2⟩ | ⟨h, _⟩
+    · simp only [KRecv.ok.injEq] at h
+      subst h
+      obtain ⟨new, h1, h3⟩ := chunkLoop_deliv u hC a (d :: ds) 0 s [] (by rw [← h2]; exact hsub) hs
+      refine ⟨pre, hpre, ?_⟩
+      simp only [recvmmsgK, h1, List.nil_append, deliveries_append]
+      rw [h2]
+      simpa [deliveries] using h3
+    · simp [KRecv.isErr] at h
+
+theorem rel_plain (a len : Nat) (d : RDg) : Rel (plainArgs ⟨a, 0, len⟩ (.ok [d])) d := by
+  refine ⟨rfl, ?_, _, rfl, ?_⟩
+  · exact flag_partial d.trunc
+  · show min (d.len : Int) (len : Int) = ((min d.len len : Nat) : Int); omega
+
+theorem recvLoop_deliv (hC : NoStopInChunk u) (hA : AllocKeeps u) (Q : List RItem) (hQ : ∀ d ∈ dgsOf Q, d.peer ≠ 0) :
+    ∀ (f a : Nat) (count : Int) (s : σ) (q : List RItem) (evs : List REv), u.recvSet s = true →
+      (∃ pre, Q = pre ++ q ∧ allRel (deliveries evs) (dgsOf pre)) →
+      ∃ pre, Q = pre ++ (recvLoop u f a count s q evs).q
+        ∧ allRel (deliveries (recvLoop u f a count s q evs).evs) (dgsOf pre) := by
+  intro f
+  induction f with
+  | zero => intro a count s q evs _ h; exact h
+  | succ f ih =>
+    intro a count s q evs hs ⟨pre, hpre, hrel⟩
+    have hs' : u.recvSet (u.alloc s).1 = true := by rw [hA]; exact hs
+    have hqd : ∀ d ∈ dgsOf q, d.peer ≠ 0 := by
+      intro d hd; apply hQ; rw [hpre]; simp [hd]
+    simp only [recvLoop]
+    split
+    · exact ⟨pre, hpre, by simpa [deliveries] using hrel⟩
+    · split
+      · rename_i hm
+        obtain ⟨pre2, h1, h2⟩ := recvmmsg_deliv u hC a _ hm.2 (u.alloc s).1 q hs' hqd
+        have hnew : ∃ pre', Q = pre' ++ (recvmmsg u a (u.alloc s).2 (u.alloc s).1 q).q ∧
+            allRel (deliveries (evs ++ [.alloc (u.alloc s).2] ++ (recvmmsg u a (u.alloc s).2 (u.alloc s).1 q).evs))
+              (dgsOf pre') := by
+          refine ⟨pre ++ pre2, by rw [List.append_assoc, ← h1]; exact hpre, ?_⟩
+          rw [deliveries_append, dgsOf_append]
+          exact allRel_append (by simpa [deliveries] using hrel) h2
+        split
+        · rename_i hc
+          exact ih _ _ _ _ _ (by simpa using hc.2.2.2) hnew
+        · exact hnew
+      · obtain ⟨pre2, h1, h2⟩ := kRecvmsg_consumed q
+        have hnew : ∃ pre', Q = pre' ++ (kRecvmsg q).2 ∧
+            allRel (deliveries (evs ++ [.alloc (u.alloc s).2] ++
+              [.cb (plainArgs ⟨a, 0, (u.alloc s).2⟩ (kRecvmsg q).1)])) (dgsOf pre') := by
+          refine ⟨pre ++ pre2, by rw [List.append_assoc, ← h1]; exact hpre, ?_⟩
+          rw [deliveries_append, dgsOf_append]
+          apply allRel_append (by simpa [deliveries] using hrel)
+          rcases h2 with ⟨d, hk, hd⟩ | ⟨hk, hd⟩
+          · have hpd : d.peer ≠ 0 := by
+              apply hqd; rw [h1]; simp [hd]
+            rw [hk, hd]
+            have : (plainArgs ⟨a, 0, (u.alloc s).2⟩ (.ok [d])).peer = d.peer := rfl
+            simp only [deliveries, List.filterMap_cons, List.filterMap_nil, this, hpd, ne_eq, not_false_eq_true, if_true]
+            exact ⟨rel_plain a _ d, trivial⟩
+          · rw [hd]
+            cases hres : (kRecvmsg q).1 with
+            | ok ds => rw [hres] at hk; simp [KRecv.isErr] at hk
+            | err e => simp [deliveries, plainArgs, allRel]
+        split
+        · exact hnew
+        · split
+          · rename_i hc
+            exact ih _ _ _ _ _ (by simpa using hc.2.2) hnew
+          · exact hnew
+end
+
+end UvModel.Udp
+
+/-! ## send_cb status -/
+namespace UvModel.Udp
+
+theorem mapErr_idem (r : Int) : mapErr (mapErr r) = mapErr r := by
+  unfold mapErr UV_EAGAIN EAGAIN ENOBUFS
+  repeat' split
+  all_goals omega
+
+/-- a failed (retried) system call leaves a log entry with that result for that vector -/
+theorem kRetry_err (m : List Dgram) (mm : Bool) (outs : List SOut) (h : (kRetry m mm outs).r < 0) :
+    ∃ k ∈ (kRetry m mm outs).log, k.res = (kRetry m mm outs).r ∧ k.offered = m := by
+  induction outs with
+  | nil => simp [kRetry] at h; omega
+  | cons o t ih =>
+    cases o with
+    | sent k => simp [kRetry] at h; split at h <;> omega
+    | err e =>
+      simp only [kRetry] at h ⊢
+      split
+      · rename_i he
+        simp only [he, if_true] at h
+        obtain ⟨k, hk, h1, h2⟩ := ih h
+        exact ⟨k, List.mem_cons_of_mem _ hk, h1, h2⟩
+      · exact ⟨_, List.mem_singleton.mpr rfl, rfl, rfl⟩
+
+theorem mmsgLoop_nsent_ge (all : List Dgram) (count : Nat) :
+    ∀ (f i nsent : Nat) (r : Int) (outs : List SOut) (log : List KCall),
+      nsent ≤ (mmsgLoop all count f i nsent r outs log).nsent := by
+  intro f
+  induction f with
+  | zero => intros; simp [mmsgLoop]
+  | succ f ih =>
+    intro i nsent r outs log
+    simp only [mmsgLoop]
+    split
+    · split
+      · exact Nat.le_refl _
+      · exact Nat.le_trans (Nat.le_add_right _ _) (ih _ _ _ _ _)
+    · exact Nat.le_refl _
+
+/-- uv__udp_sendmsgv returning an error: nothing was sent and the error is (the mapped errno of) a failed system
+call whose first datagram is the first of the batch -/
+theorem sendmsgv_err (all : List Dgram) (outs : List SOut) (h : (sendmsgv all outs).ret < 0) :
+    ∃ k ∈ (sendmsgv all outs).log, k.res < 0 ∧ k.offered.head? = all.head? ∧ (sendmsgv all outs).ret = mapErr k.res := by
+  by_cases hc : all.length > 1
+  · simp only [sendmsgv, hc, if_true] at h ⊢
+    rw [mmsgLoop_fuel all all.length all.length ((all.length - 1) + 1) 0 0 0 outs [] (by omega) (by omega)] at h ⊢
+    simp only [mmsgLoop, show 0 < all.length by omega, if_true, List.nil_append] at h ⊢
+    have hm : fill all 0 all.length 0 20 = all.take 20 := by simpa using fill_eq all 0 0 20
+    rw [hm] at h ⊢
+    split at h
+    · rename_i hlt
+      simp only [hlt, if_true]
+      simp only [vExit, Nat.lt_irrefl, if_false] at h ⊢
+      have hneg : (kRetry (all.take 20) true outs).r < 0 := by
+        by_cases hn : (kRetry (all.take 20) true outs).r < 0
+        · exact hn
+        · simp only [hn, if_false] at h
+      obtain ⟨k, hk, h1, h2⟩ := kRetry_err _ _ _ hneg
+      refine ⟨k, hk, by omega, ?_, by simp [hneg, h1]⟩
+      rw [h2]; cases all with
+      | nil => simp at hc
+      | cons a t => simp
+    · rename_i hge
+      exfalso
+      have := mmsgLoop_nsent_ge all all.length (all.length - 1) (0 + (kRetry (all.take 20) true outs).r.toNat)
+        (0 + (kRetry (all.take 20) true outs).r.toNat) (kRetry (all.take 20) true outs).r
+        (kRetry (all.take 20) true outs).outs (kRetry (all.take 20) true outs).log
+      generalize mmsgLoop all all.length (all.length - 1) _ _ _ _ _ = l at this h
+      simp only [vExit] at h
+      have h1 : 0 < l.nsent := by omega
+      simp only [h1, if_true] at h
+      omega
+  · simp only [sendmsgv, hc, if_false] at h ⊢
+    match all, hc with
+    | [], _ => simp [msgLoop, vExit] at h
+    | [d], _ =>
+      simp only [msgLoop, List.nil_append] at h ⊢
+      have hr := kRetry_msg_range [d] outs rfl
+      unfold sendmsg1 at h ⊢
+      rcases hr with hneg | h1
+      · have hm := mapErr_neg hneg
+        have hne : mapErr (kRetry [d] false outs).r ≠ 0 := by omega
+        simp only [hneg, if_true, hne, ne_eq, not_false_eq_true, vExit, Nat.lt_irrefl, if_false, hm] at h ⊢
+        obtain ⟨k, hk, h1, h2⟩ := kRetry_err _ _ _ hneg
+        exact ⟨k, hk, by omega, by rw [h2], by rw [h1, mapErr_idem]⟩
+      · have : ¬ (kRetry [d] false outs).r < 0 := by omega
+        simp [this, vExit] at h
+    | _ :: _ :: _, hc => simp at hc
+
+def H.W (s : H) : List Nat := s.wire.map (·.seq)
+
+/-- the status is the (mapped) errno of a failed system call whose first datagram was request q -/
+def OsErr (s : H) (q : Nat) (st : Int) : Prop :=
+  ∃ k ∈ s.klog, k.res < 0 ∧ k.offered.head?.map (·.seq) = some q ∧ st = mapErr k.res
+def Fail (s : H) (q : Nat) (st : Int) : Prop :=
+  (q ∈ s.cancelled ∧ st = UV_ECANCELED) ∨ (q ∉ s.cancelled ∧ OsErr s q st)
+
+structure St (s : H) : Prop where
+  n1 : ∀ p ∈ s.cq, p.2 < 0 → p.1.seq ∉ s.W ∧ Fail s p.1.seq p.2
+  s1 : ∀ p ∈ s.cq, 0 ≤ p.2 → p.1.seq ∈ s.W ∧ p.1.seq ∉ s.cancelled
+  c1 : ∀ c ∈ s.cbs, c.2 = 0 → c.1 ∈ s.W ∧ c.1 ∉ s.cancelled
+  c2 : ∀ c ∈ s.cbs, c.2 ≠ 0 → c.1 ∉ s.W ∧ Fail s c.1 c.2
+  k1 : ∀ x ∈ s.cancelled, x ∈ s.cbs.map (·.1) ∨ x ∈ s.cq.map (·.1.seq)
+
+theorem Fail.mono {s t : H} {q : Nat} {st : Int} (h : Fail s q st) (hcan : t.cancelled = s.cancelled)
+    (hk : ∃ l, t.klog = s.klog ++ l) : Fail t q st := by
+  obtain ⟨l, hl⟩ := hk
+  rcases h with ⟨h1, h2⟩ | ⟨h1, k, hk1, hk2⟩
+  · exact Or.inl ⟨by rw [hcan]; exact h1, h2⟩
+  · exact Or.inr ⟨by rw [hcan]; exact h1, k, by rw [hl]; exact List.mem_append_left _ hk1, hk2⟩
+
+theorem St.of_eq {s t : H} (h : St s) (h1 : t.cq = s.cq) (h2 : t.cbs = s.cbs) (h3 : t.klog = s.klog)
+    (h4 : t.cancelled = s.cancelled) : St t := by
+  obtain ⟨a, b, c, d, e⟩ := h
+  have hW : t.W = s.W := by simp [H.W, H.wire, h3]
+  have hF : ∀ q st, Fail s q st → Fail t q st := fun q st hf => hf.mono h4 ⟨[], by simp [h3]⟩
+  refine ⟨?_, ?_, ?_, ?_, ?_⟩ <;> simp only [h1, h2, h4, hW]
+  · exact fun p hp hn => ⟨(a p hp hn).1, hF _ _ (a p hp hn).2⟩
+  · exact b
+  · exact c
+  · exact fun p hp hn => ⟨(d p hp hn).1, hF _ _ (d p hp hn).2⟩
+  · exact e
+
+/-- the wire and the completed queue grow, the log is appended to, callbacks and cancellations unchanged -/
+theorem St.grow {s t : H} (hs : St s) (hcb : t.cbs = s.cbs) (hcan : t.cancelled = s.cancelled)
+    (hk : ∃ l, t.klog = s.klog ++ l) (X : List Nat) (hW : t.W = s.W ++ X)
+    (hXcq : ∀ p ∈ s.cq, p.1.seq ∉ X) (hXcb : ∀ c ∈ s.cbs, c.1 ∉ X)
+    (new : List (Dgram × Int)) (hcq : t.cq = s.cq ++ new)
+    (hneg : ∀ p ∈ new, p.2 < 0 → p.1.seq ∉ t.W ∧ Fail t p.1.seq p.2)
+    (hpos : ∀ p ∈ new, 0 ≤ p.2 → p.1.seq ∈ t.W ∧ p.1.seq ∉ t.cancelled) : St t := by
+  obtain ⟨a, b, c, d, e⟩ := hs
+  refine ⟨?_, ?_, ?_, ?_, ?_⟩
+  · intro p hp hn
+    rw [hcq, List.mem_append] at hp
+    rcases hp with hp | hp
+    · refine ⟨?_, (a p hp hn).2.mono hcan hk⟩
+      rw [hW, List.mem_append]; exact fun h => h.elim (a p hp hn).1 (hXcq p hp)
+    · exact hneg p hp hn
+  · intro p hp hn
+    rw [hcq, List.mem_append] at hp
+    rcases hp with hp | hp
+    · exact ⟨by rw [hW]; exact List.mem_append_left _ (b p hp hn).1, by rw [hcan]; exact (b p hp hn).2⟩
+    · exact hpos p hp hn
+  · intro x hx h0
+    rw [hcb] at hx
+    exact ⟨by rw [hW]; exact List.mem_append_left _ (c x hx h0).1, by rw [hcan]; exact (c x hx h0).2⟩
+  · intro x hx h0
+    rw [hcb] at hx
+    refine ⟨?_, (d x hx h0).2.mono hcan hk⟩
+    rw [hW, List.mem_append]; exact fun h => h.elim (d x hx h0).1 (hXcb x hx)
+  · intro x hx
+    rw [hcan] at hx
+    rcases e x hx with h | h
+    · exact Or.inl (by rw [hcb]; exact h)
+    · refine Or.inr ?_
+      rw [hcq, List.map_append, List.mem_append]; exact Or.inl h
+
+/-- consequences of Inv: ids of owed / called-back requests are pairwise distinct and below nseq -/
+theorem inv_support {s : H} (h : Inv s) :
+    (∀ p ∈ s.cq, ∀ d ∈ s.wq, p.1.seq ≠ d.seq) ∧ (∀ c ∈ s.cbs, ∀ d ∈ s.wq, c.1 ≠ d.seq)
+    ∧ (∀ p ∈ s.cq, p.1.seq < s.nseq) ∧ (∀ c ∈ s.cbs, c.1 < s.nseq)
+    ∧ (∀ d ∈ s.wq, d.seq ∉ s.W) ∧ (∀ x ∈ s.W, x < s.nseq) := by
+  have hsub : (s.accepted.map (·.seq)).Sublist (List.range s.nseq) := by rw [← h.seqs]; exact h.acc.map _
+  have hnd : (s.cbs.map (·.1) ++ s.owed.map (·.seq)).Nodup := by rw [← h.part]; exact hsub.nodup List.nodup_range
+  have hlt : ∀ x ∈ s.cbs.map (·.1) ++ s.owed.map (·.seq), x < s.nseq := by
+    intro x hx; rw [← h.part] at hx; exact List.mem_range.mp (hsub.subset hx)
+  have hws : ((s.wire ++ s.wq).map (·.seq)).Sublist (List.range s.nseq) := by rw [← h.seqs]; exact h.sub.map _
+  have hwn := hws.nodup List.nodup_range
+  simp only [H.owed, List.map_append, List.map_map] at hnd hlt
+  rw [List.map_append] at hwn
+  rw [List.nodup_append] at hwn
+  rw [List.nodup_append] at hnd
+  obtain ⟨_, hnd2, hd1⟩ := hnd
+  rw [List.nodup_append] at hnd2
+  obtain ⟨_, _, hd2⟩ := hnd2
+  refine ⟨?_, ?_, ?_, ?_, ?_, ?_⟩
+  · intro p hp d hd
+    exact hd2 _ (List.mem_map.mpr ⟨p, hp, rfl⟩) _ (List.mem_map.mpr ⟨d, hd, rfl⟩)
+  · intro c hc d hd
+    exact hd1 _ (List.mem_map.mpr ⟨c, hc, rfl⟩) _ (List.mem_append_right _ (List.mem_map.mpr ⟨d, hd, rfl⟩))
+  · intro p hp
+    exact hlt _ (List.mem_append_right _ (List.mem_append_left _ (List.mem_map.mpr ⟨p, hp, rfl⟩)))
+  · intro c hc
+    exact hlt _ (List.mem_append_left _ (List.mem_map.mpr ⟨c, hc, rfl⟩))
+  · intro d hd hw
+    exact hwn.2.2 _ hw _ (List.mem_map.mpr ⟨d, hd, rfl⟩) rfl
+  · intro x hx
+    exact List.mem_range.mp (hws.subset (by rw [List.map_append]; exact List.mem_append_left _ hx))
+
+theorem wq_not_cancelled {s : H} (h : Inv s) (hs : St s) : ∀ d ∈ s.wq, d.seq ∉ s.cancelled := by
+  obtain ⟨d1, d2, _⟩ := inv_support h
+  intro d hd hc
+  rcases hs.k1 _ hc with hx | hx
+  · obtain ⟨c, hc1, hc2⟩ := List.mem_map.mp hx
+    exact d2 c hc1 d hd hc2
+  · obtain ⟨p, hp1, hp2⟩ := List.mem_map.mp hx
+    exact d1 p hp1 d hd hp2
+
+theorem again_succ_inv (s : H) (h : Inv s) (v : VRes)
+    (hv : wireOf v.log = (s.wq.take 20).take v.ret.toNat) (hn : v.ret.toNat ≤ 20) :
+    Inv { s with souts := v.outs, klog := s.klog ++ v.log,
+                 cq := s.cq ++ (s.wq.take v.ret.toNat).map (fun d => (d, (d.bytes : Int))),
+                 wq := s.wq.drop v.ret.toNat } := by
+  obtain ⟨a, b, c, d, e, g, i⟩ := h
+  have ho : (s.cq ++ (s.wq.take v.ret.toNat).map (fun d => (d, (d.bytes : Int)))).map (·.1)
+      ++ s.wq.drop v.ret.toNat = s.cq.map (·.1) ++ s.wq := by
+    simp [List.map_append, List.map_map, Function.comp_def, List.append_assoc]
+  constructor <;> simp only [H.owed, H.wire, H.cbs] at * <;> try (rw [ho]; assumption)
+  · rw [wireOf_append, hv, List.take_take]
+    have : min v.ret.toNat 20 = v.ret.toNat := by omega
+    rw [this, List.append_assoc, List.take_append_drop]; exact e
+  · exact g
+  · exact i
+
+theorem sendmsgAgain_st (f : Nat) (s : H) (h : Inv s) (hs : St s) : St (sendmsgAgain f s) := by
+  induction f generalizing s with
+  | zero => exact hs
+  | succ f ih =>
+    obtain ⟨d1, d2, _, _, d5, _⟩ := inv_support h
+    have hnc := wq_not_cancelled h hs
+    simp only [sendmsgAgain]
+    split
+    · rename_i hret
+      have hv := sendmsgv_nonneg (s.wq.take 20) s.souts hret
+      generalize sendmsgv (s.wq.take 20) s.souts = v at hv hret
+      have hn : v.ret.toNat ≤ 20 ∧ v.ret.toNat ≤ s.wq.length := by
+        have := hv.2; simp at this; omega
+      have hv1 : wireOf v.log = s.wq.take v.ret.toNat := by
+        rw [hv.1, List.take_take]
+        have : min v.ret.toNat 20 = v.ret.toNat := by omega
+        rw [this]
+      have key := again_succ_inv s h v hv.1 hn.1
+      have kst : St { s with souts := v.outs, klog := s.klog ++ v.log,
+                             cq := s.cq ++ (s.wq.take v.ret.toNat).map (fun d => (d, (d.bytes : Int))),
+                             wq := s.wq.drop v.ret.toNat } := by
+        have hmem : ∀ x ∈ (s.wq.take v.ret.toNat).map (·.seq), ∃ d ∈ s.wq, d.seq = x := by
+          intro x hx
+          obtain ⟨d, hd, rfl⟩ := List.mem_map.mp hx
+          exact ⟨d, List.mem_of_mem_take hd, rfl⟩
+        refine hs.grow ?_ ?_ ?_ ((s.wq.take v.ret.toNat).map (·.seq)) ?_ ?_ ?_
+          ((s.wq.take v.ret.toNat).map (fun d => (d, (d.bytes : Int)))) ?_ ?_ ?_
+        · rfl
+        · rfl
+        · exact ⟨v.log, rfl⟩
+        · simp [H.W, H.wire, wireOf_append, hv1]
+        · intro p hp hx
+          obtain ⟨d, hd, he⟩ := hmem _ hx
+          exact d1 p hp d hd he.symm
+        · intro c hc hx
+          obtain ⟨d, hd, he⟩ := hmem _ hx
+          exact d2 c hc d hd he.symm
+        · rfl
+        · intro p hp hneg
+          obtain ⟨d, _, rfl⟩ := List.mem_map.mp hp
+          simp at hneg; omega
+        · intro p hp _
+          obtain ⟨d, hd, rfl⟩ := List.mem_map.mp hp
+          refine ⟨?_, hnc d (List.mem_of_mem_take hd)⟩
+          simp only [H.W, H.wire, wireOf_append, hv1, List.map_append, List.mem_append]
+          exact Or.inr (List.mem_map.mpr ⟨d, hd, rfl⟩)
+      split
+      · exact kst.of_eq rfl rfl rfl rfl
+      · exact ih _ key kst
+    · rename_i hret
+      have hneg : (sendmsgv (s.wq.take 20) s.souts).ret < 0 := by omega
+      have hv := sendmsgv_neg (s.wq.take 20) s.souts hneg
+      have herr := sendmsgv_err (s.wq.take 20) s.souts hneg
+      generalize sendmsgv (s.wq.take 20) s.souts = v at hv hret herr hneg
+      have kst : St { s with souts := v.outs, klog := s.klog ++ v.log } := by
+        refine hs.grow ?_ ?_ ?_ [] ?_ (by simp) (by simp) [] ?_ (by simp) (by simp)
+        · rfl
+        · rfl
+        · exact ⟨v.log, rfl⟩
+        · simp [H.W, H.wire, wireOf_append, hv]
+        · simp
+      split
+      · exact kst
+      · split
+        · exact kst
+        · rename_i d rest hwq
+          have hd : d ∈ s.wq := by rw [hwq]; exact List.mem_cons_self ..
+          refine St.of_eq (s := { s with souts := v.outs, klog := s.klog ++ v.log, cq := s.cq ++ [(d, v.ret)] })
+            ?_ rfl rfl rfl rfl
+          refine hs.grow ?_ ?_ ?_ [] ?_ (by simp) (by simp) [(d, v.ret)] ?_ ?_ ?_
+          · rfl
+          · rfl
+          · exact ⟨v.log, rfl⟩
+          · simp [H.W, H.wire, wireOf_append, hv]
+          · rfl
+          · intro p hp _
+            rw [List.mem_singleton] at hp; subst hp
+            refine ⟨?_, Or.inr ⟨hnc d hd, ?_⟩⟩
+            · simp only [H.W, H.wire, wireOf_append, hv, List.append_nil]
+              exact d5 d hd
+            · obtain ⟨k, hk, h1, h2, h3⟩ := herr
+              refine ⟨k, List.mem_append_right _ hk, h1, ?_, h3⟩
+              rw [h2, hwq]; simp
+          · intro p hp h0
+            rw [List.mem_singleton] at hp; subst hp
+            simp at h0; omega
+
+theorem uvSendmsg_st (s : H) (h : Inv s) (hs : St s) : St (uvSendmsg s) := by
+  unfold uvSendmsg; split
+  · exact hs
+  · exact sendmsgAgain_st _ _ h hs
+
+theorem enqueue_inv (s : H) (d : Dgram) (h : Inv s) (hd : d.seq = s.nseq) :
+    Inv { s with nseq := s.nseq + 1, submitted := s.submitted ++ [d], activeReqs := s.activeReqs + 1,
+                 sqSize := s.sqSize + d.bytes, sqCount := s.sqCount + 1, wq := s.wq ++ [d],
+                 active := true, accepted := s.accepted ++ [d] } := by
+  have h1 : Inv { s with nseq := s.nseq + 1, submitted := s.submitted ++ [d] } :=
+    inv_submit h [d] (by simp [hd])
+  obtain ⟨a, b, c, d', e, g, i⟩ := h
+  obtain ⟨_, _, _, _, _, g1, _⟩ := h1
+  have ho : s.cq.map (·.1) ++ (s.wq ++ [d]) = (s.cq.map (·.1) ++ s.wq) ++ [d] := by simp
+  simp only [H.owed, H.wire, H.cbs] at a b c d' e g i g1
+  refine ⟨?_, ?_, ?_, ?_, ?_, g1, ?_⟩ <;> simp only [H.owed, H.wire, H.cbs]
+  · rw [ho, List.length_append, a]; simp
+  · rw [ho, List.map_append, List.sum_append, b]; simp
+  · rw [ho, List.length_append, c]; simp
+  · rw [ho, List.map_append, List.map_append, d']; simp
+  · rw [← List.append_assoc]; exact e.append (List.Sublist.refl _)
+  · exact i.append (List.Sublist.refl _)
+
+theorem udpSend_st (s : H) (d : Dgram) (en : Bool) (h : Inv s) (hs : St s) (hd : d.seq = s.nseq) :
+    St (udpSend { s with nseq := s.nseq + 1, submitted := s.submitted ++ [d] } d en).1 := by
+  unfold udpSend
+  simp only
+  split
+  · exact hs.of_eq rfl rfl rfl rfl
+  · have key := enqueue_inv s d h hd
+    have kst : St { s with nseq := s.nseq + 1, submitted := s.submitted ++ [d], activeReqs := s.activeReqs + 1,
+                           sqSize := s.sqSize + d.bytes, sqCount := s.sqCount + 1, wq := s.wq ++ [d],
+                           active := true, accepted := s.accepted ++ [d] } := hs.of_eq rfl rfl rfl rfl
+    split
+    · have k2 := uvSendmsg_st _ key kst
+      split
+      · exact k2.of_eq rfl rfl rfl rfl
+      · exact k2
+    · exact kst.of_eq rfl rfl rfl rfl
+
+theorem st_emit {s : H} (h : St s) (e : Ev) (he : ∀ q st, e ≠ .sendCb q st) : St (emit s e) := by
+  apply h.of_eq <;> try rfl
+  cases e <;> simp_all
+
+theorem mem_mkDgrams {n c : Nat} {b : List Nat} {dst : Nat} {d : Dgram} (h : d ∈ mkDgrams n c b dst) : n ≤ d.seq := by
+  simp only [mkDgrams, List.mem_map, List.mem_range] at h
+  obtain ⟨i, _, rfl⟩ := h
+  simp
+
+theorem applyOp_st (s : H) (op : Op) (h : Inv s) (hs : St s) : St (applyOp s op) := by
+  obtain ⟨_, _, d3, d4, _, _⟩ := inv_support h
+  unfold applyOp
+  split
+  · exact st_emit hs _ (by intros; simp)
+  · cases op with
+    | send bufs dest en =>
+      simp only
+      split
+      · apply st_emit _ _ (by intros; simp)
+        exact hs.of_eq rfl rfl rfl rfl
+      · have := udpSend_st s ⟨s.nseq, bufs, dest⟩ en h hs rfl
+        generalize udpSend _ _ _ = r at this
+        exact st_emit this _ (by intros; simp)
+    | trySend bufs dest =>
+      simp only
+      split
+      · apply st_emit _ _ (by intros; simp)
+        exact hs.of_eq rfl rfl rfl rfl
+      · split
+        · apply st_emit _ _ (by intros; simp)
+          exact hs.of_eq rfl rfl rfl rfl
+        · split
+          · apply st_emit _ _ (by intros; simp)
+            exact hs.of_eq rfl rfl rfl rfl
+          · apply st_emit _ _ (by intros; simp)
+            have hsp := sendmsg1_spec ⟨s.nseq, bufs, dest⟩ s.souts
+            refine hs.grow ?_ ?_ ?_
+              ((wireOf (sendmsg1 ⟨s.nseq, bufs, dest⟩ s.souts).log).map (·.seq)) ?_ ?_ ?_ [] ?_ (by simp) (by simp)
+            · rfl
+            · rfl
+            · exact ⟨(sendmsg1 ⟨s.nseq, bufs, dest⟩ s.souts).log, rfl⟩
+            · simp [H.W, H.wire, wireOf_append]
+            rotate_left 2
+            · simp
+            · intro p hp hx
+              rcases hsp with ⟨_, hw⟩ | ⟨_, hw⟩
+              · rw [hw] at hx; simp at hx; have := d3 p hp; omega
+              · rw [hw] at hx; simp at hx
+            · intro c hc hx
+              rcases hsp with ⟨_, hw⟩ | ⟨_, hw⟩
+              · rw [hw] at hx; simp at hx; have := d4 c hc; omega
+              · rw [hw] at hx; simp at hx
+    | trySend2 count bufs dest =>
+      simp only
+      split
+      · apply st_emit _ _ (by intros; simp)
+        exact hs.of_eq rfl rfl rfl rfl
+      · split
+        · apply st_emit _ _ (by intros; simp)
+          exact hs.of_eq rfl rfl rfl rfl
+        · split
+          · apply st_emit _ _ (by intros; simp)
+            exact hs.of_eq rfl rfl rfl rfl
+          · apply st_emit _ _ (by intros; simp)
+            have hsp := sendmsgv_spec (mkDgrams s.nseq count bufs dest) s.souts
+            have hsub : ∀ x ∈ (wireOf (sendmsgv (mkDgrams s.nseq count bufs dest) s.souts).log).map (·.seq), s.nseq ≤ x := by
+              intro x hx
+              obtain ⟨d, hd, rfl⟩ := List.mem_map.mp hx
+              by_cases hp : (sendmsgv (mkDgrams s.nseq count bufs dest) s.souts).ret > 0
+              · rw [(hsp.1 hp).1] at hd; exact mem_mkDgrams (List.mem_of_mem_take hd)
+              · rw [hsp.2 (by omega)] at hd; simp at hd
+            refine hs.grow ?_ ?_ ?_
+              ((wireOf (sendmsgv (mkDgrams s.nseq count bufs dest) s.souts).log).map (·.seq)) ?_ ?_ ?_ [] ?_ (by simp) (by simp)
+            · rfl
+            · rfl
+            · exact ⟨(sendmsgv (mkDgrams s.nseq count bufs dest) s.souts).log, rfl⟩
+            · simp [H.W, H.wire, wireOf_append]
+            rotate_left 2
+            · simp
+            · intro p hp hx
+              have := hsub _ hx; have := d3 p hp; omega
+            · intro c hc hx
+              have := hsub _ hx; have := d4 c hc; omega
+    | recvStart =>
+      simp only
+      split
+      · exact st_emit hs _ (by intros; simp)
+      · apply st_emit _ _ (by intros; simp)
+        exact hs.of_eq rfl rfl rfl rfl
+    | recvStop =>
+      simp only
+      apply st_emit _ _ (by intros; simp)
+      exact hs.of_eq rfl rfl rfl rfl
+    | close =>
+      simp only
+      exact hs.of_eq rfl rfl rfl rfl
+
+/-- the combined invariant -/
+def Inv2 (s : H) : Prop := Inv s ∧ St s
+
+theorem applyOps_inv2 (ops : List Op) (s : H) (h : Inv2 s) : Inv2 (applyOps s ops) := by
+  induction ops generalizing s with
+  | nil => exact h
+  | cons op ops ih => exact ih _ ⟨applyOp_inv s op h.1, applyOp_st s op h.1 h.2⟩
+
+theorem St.pop {s t : H} (hs : St s) {d : Dgram} {st : Int} {rest : List (Dgram × Int)}
+    (hcq : s.cq = (d, st) :: rest) (h1 : t.cq = rest)
+    (h2 : t.cbs = s.cbs ++ [(d.seq, if st ≥ 0 then 0 else st)]) (h3 : t.klog = s.klog)
+    (h4 : t.cancelled = s.cancelled) : St t := by
+  obtain ⟨a, b, c, e, k⟩ := hs
+  have hW : t.W = s.W := by simp [H.W, H.wire, h3]
+  have hF : ∀ q x, Fail s q x → Fail t q x := fun q x hf => hf.mono h4 ⟨[], by simp [h3]⟩
+  have hin : (d, st) ∈ s.cq := by rw [hcq]; exact List.mem_cons_self ..
+  have hsub : ∀ p ∈ rest, p ∈ s.cq := fun p hp => by rw [hcq]; exact List.mem_cons_of_mem _ hp
+  refine ⟨?_, ?_, ?_, ?_, ?_⟩ <;> simp only [h1, h2, h4, hW]
+  · intro p hp hn
+    exact ⟨(a p (hsub p hp) hn).1, hF _ _ (a p (hsub p hp) hn).2⟩
+  · intro p hp hn
+    exact b p (hsub p hp) hn
+  · intro x hx h0
+    rw [List.mem_append] at hx
+    rcases hx with hx | hx
+    · exact c x hx h0
+    · rw [List.mem_singleton] at hx; subst hx
+      by_cases hst : st ≥ 0
+      · exact b _ hin hst
+      · simp only [hst, if_false] at h0; omega
+  · intro x hx h0
+    rw [List.mem_append] at hx
+    rcases hx with hx | hx
+    · exact ⟨(e x hx h0).1, hF _ _ (e x hx h0).2⟩
+    · rw [List.mem_singleton] at hx; subst hx
+      by_cases hst : st ≥ 0
+      · simp only [hst, if_true] at h0; exact absurd rfl h0
+      · simp only [hst, if_false]
+        have := a _ hin (by omega)
+        exact ⟨this.1, hF _ _ this.2⟩
+  · intro x hx
+    rcases k x hx with h | h
+    · exact Or.inl (by rw [List.map_append]; exact List.mem_append_left _ h)
+    · rw [hcq, List.map_cons, List.mem_cons] at h
+      rcases h with h | h
+      · exact Or.inl (by rw [List.map_append]; exact List.mem_append_right _ (by simp [h]))
+      · exact Or.inr h
+
+theorem runCompletedLoop_inv2 (sc : Script) (f : Nat) (s : H) (h : Inv2 s) : Inv2 (runCompletedLoop sc f s) := by
+  induction f generalizing s with
+  | zero => exact h
+  | succ f ih =>
+    simp only [runCompletedLoop]
+    split
+    · exact h
+    · rename_i d st rest hcq
+      apply ih
+      apply applyOps_inv2
+      exact ⟨inv_pop h.1 hcq _, h.2.pop hcq rfl (cbs_emit_send _ _ _) rfl rfl⟩
+
+theorem runCompleted_inv2 (sc : Script) (s : H) (h : Inv2 s) : Inv2 (runCompleted sc s) := by
+  unfold runCompleted
+  simp only
+  have h1 : Inv2 { s with processing := true } :=
+    ⟨h.1.of_eq rfl rfl rfl rfl rfl rfl rfl rfl rfl rfl, h.2.of_eq rfl rfl rfl rfl⟩
+  have h2 := runCompletedLoop_inv2 sc s.cq.length _ h1
+  split <;> exact ⟨h2.1.of_eq rfl rfl rfl rfl rfl rfl rfl rfl rfl rfl, h2.2.of_eq rfl rfl rfl rfl⟩
+
+theorem ioOut_inv2 (sc : Script) (s : H) (h : Inv2 s) : Inv2 (ioOut sc s) := by
+  unfold ioOut; split
+  · exact runCompleted_inv2 _ _ ⟨uvSendmsg_inv _ h.1, uvSendmsg_st _ h.1 h.2⟩
+  · exact h
+
+theorem Inv2.of_eq {s t : H} (h : Inv2 s)
+    (h1 : t.sqCount = s.sqCount) (h2 : t.sqSize = s.sqSize) (h3 : t.activeReqs = s.activeReqs)
+    (h4 : t.accepted = s.accepted) (h5 : t.cbs = s.cbs) (h6 : t.cq = s.cq) (h7 : t.wq = s.wq)
+    (h8 : t.klog = s.klog) (h9 : t.submitted = s.submitted) (h10 : t.nseq = s.nseq)
+    (h11 : t.cancelled = s.cancelled) : Inv2 t :=
+  ⟨h.1.of_eq h1 h2 h3 h4 h5 h6 h7 h8 h9 h10, h.2.of_eq h6 h5 h8 h11⟩
+
+theorem inv2_emit {s : H} (h : Inv2 s) (e : Ev) (he : ∀ q st, e ≠ .sendCb q st) : Inv2 (emit s e) :=
+  ⟨inv_emit h.1 e he, st_emit h.2 e he⟩
+
+theorem St.cancel {s t : H} (hi : Inv s) (hs : St s)
+    (h1 : t.cq = s.cq ++ s.wq.map (fun d => (d, UV_ECANCELED))) (h2 : t.cbs = s.cbs) (h3 : t.klog = s.klog)
+    (h4 : t.cancelled = s.cancelled ++ s.wq.map (·.seq)) : St t := by
+  obtain ⟨d1, d2, _, _, d5, _⟩ := inv_support hi
+  obtain ⟨a, b, c, e, k⟩ := hs
+  have hW : t.W = s.W := by simp [H.W, H.wire, h3]
+  have hnc : ∀ q, q ∉ s.cancelled → (∀ d ∈ s.wq, q ≠ d.seq) → q ∉ t.cancelled := by
+    intro q f1 hq
+    rw [h4, List.mem_append]
+    rintro (hm | hm)
+    · exact f1 hm
+    · obtain ⟨d, hd, he⟩ := List.mem_map.mp hm
+      exact hq d hd he.symm
+  have hF : ∀ q x, Fail s q x → (∀ d ∈ s.wq, q ≠ d.seq) → Fail t q x := by
+    intro q x hf hq
+    rcases hf with ⟨f1, f2⟩ | ⟨f1, kk, hk1, hk2⟩
+    · exact Or.inl ⟨by rw [h4]; exact List.mem_append_left _ f1, f2⟩
+    · exact Or.inr ⟨hnc q f1 hq, kk, by rw [h3]; exact hk1, hk2⟩
+  refine ⟨?_, ?_, ?_, ?_, ?_⟩
+  · intro p hp hn
+    rw [hW]
+    rw [h1, List.mem_append] at hp
+    rcases hp with hp | hp
+    · exact ⟨(a p hp hn).1, hF _ _ (a p hp hn).2 (fun d hd => d1 p hp d hd)⟩
+    · obtain ⟨d, hd, rfl⟩ := List.mem_map.mp hp
+      refine ⟨d5 d hd, Or.inl ⟨?_, rfl⟩⟩
+      rw [h4]; exact List.mem_append_right _ (List.mem_map.mpr ⟨d, hd, rfl⟩)
+  · intro p hp hn
+    rw [hW]
+    rw [h1, List.mem_append] at hp
+    rcases hp with hp | hp
+    · exact ⟨(b p hp hn).1, hnc _ (b p hp hn).2 (fun d hd => d1 p hp d hd)⟩
+    · obtain ⟨d, hd, rfl⟩ := List.mem_map.mp hp
+      simp [UV_ECANCELED] at hn
+  · intro x hx h0
+    rw [h2] at hx; rw [hW]
+    exact ⟨(c x hx h0).1, hnc _ (c x hx h0).2 (fun d hd => d2 x hx d hd)⟩
+  · intro x hx h0
+    rw [h2] at hx; rw [hW]
+    exact ⟨(e x hx h0).1, hF _ _ (e x hx h0).2 (fun d hd => d2 x hx d hd)⟩
+  · intro x hx
+    rw [h4, List.mem_append] at hx
+    rw [h2, h1, List.map_append, List.mem_append]
+    rcases hx with hx | hx
+    · rcases k x hx with h | h
+      · exact Or.inl h
+      · exact Or.inr (Or.inl h)
+    · obtain ⟨d, hd, rfl⟩ := List.mem_map.mp hx
+      exact Or.inr (Or.inr (List.mem_map.mpr ⟨(d, UV_ECANCELED), List.mem_map.mpr ⟨d, hd, rfl⟩, rfl⟩))
+
+theorem cancel_inv2 (s : H) (h : Inv2 s) :
+    Inv2 { s with cq := s.cq ++ s.wq.map (fun d => (d, UV_ECANCELED)), wq := [],
+                  cancelled := s.cancelled ++ s.wq.map (·.seq) } := by
+  refine ⟨?_, St.cancel h.1 h.2 rfl rfl rfl rfl⟩
+  obtain ⟨a, b, c, d', e, g, i⟩ := h.1
+  have ho : (s.cq ++ s.wq.map (fun d => (d, UV_ECANCELED))).map (·.1) ++ [] = s.cq.map (·.1) ++ s.wq := by
+    simp [List.map_map, Function.comp_def]
+  simp only [H.owed, H.wire, H.cbs] at a b c d' e g i
+  refine ⟨?_, ?_, ?_, ?_, ?_, g, i⟩ <;> simp only [H.owed, H.wire, H.cbs]
+  · rw [ho]; exact a
+  · rw [ho]; exact b
+  · rw [ho]; exact c
+  · rw [ho]; exact d'
+  · rw [List.append_nil]; exact (List.sublist_append_left _ _).trans e
+
+theorem finishClose_inv2 (sc : Script) (s : H) (h : Inv2 s) : Inv2 (finishClose sc s) := by
+  unfold finishClose; split
+  · exact h
+  · simp only
+    apply inv2_emit _ _ (by intros; simp)
+    exact (runCompleted_inv2 sc _ (cancel_inv2 s h)).of_eq rfl rfl rfl rfl rfl rfl rfl rfl rfl rfl rfl
+
+theorem ioIn_inv2 (sc : Script) (s : H) (q : List RItem) (h : Inv2 s) : Inv2 (ioIn sc s q).1 := by
+  unfold ioIn; split
+  · apply recvLoop_pres (hUser sc) Inv2
+    · intro s a hs
+      apply applyOps_inv2
+      apply inv2_emit _ _ (by intros; simp)
+      exact hs.of_eq rfl rfl rfl rfl rfl rfl rfl rfl rfl rfl rfl
+    · intro s hs
+      show Inv2 (emit _ _)
+      apply inv2_emit _ _ (by intros; simp)
+      exact hs.of_eq rfl rfl rfl rfl rfl rfl rfl rfl rfl rfl rfl
+    · exact h
+  · exact h
+
+theorem pendingRounds_inv2 (sc : Script) (n : Nat) (s : H) (h : Inv2 s) : Inv2 (pendingRounds sc n s) := by
+  induction n generalizing s with
+  | zero => exact h
+  | succ n ih =>
+    simp only [pendingRounds]; split
+    · exact ih _ (ioOut_inv2 _ _ (h.of_eq rfl rfl rfl rfl rfl rfl rfl rfl rfl rfl rfl))
+    · exact h
+
+theorem uvRun_inv2 (sc : Script) (s : H) (q : List RItem) (h : Inv2 s) : Inv2 (uvRun sc s q).1 := by
+  unfold uvRun
+  simp only
+  have h1 := pendingRounds_inv2 sc 1 s h
+  generalize pendingRounds sc 1 s = s1 at h1
+  apply finishClose_inv2
+  apply pendingRounds_inv2
+  have h2 : Inv2 (if s1.pollin = true then ioIn sc s1 q else (s1, q, false)).1 := by
+    split
+    · exact ioIn_inv2 _ _ _ h1
+    · exact h1
+  split
+  · exact ioOut_inv2 _ _ h2
+  · exact h2
+
+theorem inv2_init (c m : Bool) : Inv2 { connected := c, mmsg := m } := by
+  refine ⟨inv_init c m, ?_, ?_, ?_, ?_, ?_⟩ <;> simp [H.cbs]
+
+end UvModel.Udp
